@@ -250,7 +250,8 @@ pub fn e1_spec(id: &str, tier: &str) -> Option<Spec> {
                     progs::p3(1, 1, 8),
                     progs::p3(2, 4, 9),
                 ];
-                v.extend(progs::struct_set());
+                // (the lru variant is the same program with another alphabet: not needed here)
+                v.extend(progs::struct_set().into_iter().filter(|p| !p.name.ends_with("-lru")));
                 v.extend(progs::churn_struct_set());
                 v.push(progs::intern_prog(1));
                 v.extend(progs::specify_set().into_iter().take(1));
